@@ -291,11 +291,18 @@ func NewClientConfig() *ClientConfig {
 			}, nil)
 		},
 		CompSelector: func(options []SessionCompression) SessionCompression {
+			if len(options) == 0 {
+				// A server may ask for the negotiation without offering anything
+				return SessionCompressionNone
+			}
 			return options[0]
 		},
 		EncryptSelector: func(options []SessionEncryption) SessionEncryption {
 			if contains(options, SessionEncryptionTLS) {
 				return SessionEncryptionTLS
+			}
+			if len(options) == 0 {
+				return SessionEncryptionNone
 			}
 			return options[0]
 		},
